@@ -132,6 +132,15 @@ fn all_kinds(f: fn(&mut PushBuffer<i32>, &mut D)) {
             f(&mut b, &mut m);
             assert!(same(&b, &m), "buffer contents differ from the bounded-sequence model");
             assert!(b.size() <= cap, "size exceeds capacity");
+            // probe suffix: the internal cursors are not observable directly, so the representation left
+            // behind is exercised by one more push and one more pop (this is what makes the step inductive)
+            let x: i32 = kani::any();
+            b.push_force(x);
+            m.push_force(x);
+            assert!(same(&b, &m), "after the operation a following push_force is misplaced (stale cursor)");
+            let r = b.pop();
+            let w = m.pop();
+            assert!(r == w && same(&b, &m), "after the operation a following pop returns the wrong item (stale cursor)");
             std::mem::forget(b);
             cap += 1;
         }
